@@ -448,9 +448,13 @@ func (e *Exporter) collectCSVColumns(chunks []*Chunk) []string {
 	columns = append(columns, "chunk_index", "document_title", "page_start", "page_end",
 		"section_title", "has_table", "has_list", "has_image")
 
-	// Collect metadata columns from all chunks
+	// Collect metadata columns from all chunks (none when metadata is not
+	// exported: the rows would have nothing to put into them)
 	metadataKeys := make(map[string]bool)
 	for _, chunk := range chunks {
+		if !e.config.IncludeMetadata {
+			break
+		}
 		metaMap := chunkMetadataToMap(chunk.Metadata)
 
 		var meta map[string]interface{}
